@@ -1,6 +1,7 @@
 package main
 
 import (
+	"go/ast"
 	"go/constant"
 	"go/types"
 	"strconv"
@@ -80,6 +81,9 @@ func runC07(c *Ctx) {
 	c.c07Handles()
 	c.c07DotsInNames()
 	c.c07SniffingFailureIsNotAnExtractionFailure()
+	c.c07NoAnswerFromAClosedFilesystem()
+	c.c07TimesReportTheErrorOfStat()
+	c.c07EmptyDirectoriesAndDirectorySizes()
 }
 
 func (c *Ctx) c07Guard() {
@@ -1562,5 +1566,267 @@ func (c *Ctx) c07SniffingFailureIsNotAnExtractionFailure() {
 	})
 	if n == 0 {
 		c.info("V11", fname(f)+"/no-sniffing", "-", "the extraction loop does not sniff extracted files")
+	}
+}
+
+// c07NoAnswerFromAClosedFilesystem (V12): "once closed serve nothing any more: every call that needs the archive fails". V1
+// guards the accesses to the backend; a method that never touches the backend itself can still answer without an error on
+// the strength of queries that cannot fail (Exists() is simply false on a closed filesystem: "x.zip does not exist, so by
+// its name it is an archive"). Decided for every exported method of *VFS with an error result and a path parameter: a
+// return that can carry a nil error is reached only after the closed guard answered nil in the method itself, or after a
+// call of another method of the filesystem whose error was found nil.
+func (c *Ctx) c07NoAnswerFromAClosedFilesystem() {
+	c.rule("V12", "an exported method of the filesystem that takes a path returns without an error only after the closed guard (consulted by itself) or a delegated filesystem call answered nil: nothing is concluded from queries that cannot fail", 60)
+	for _, f := range c.srcFuncs(fsPkgRel) {
+		if f.Parent() != nil || f.Blocks == nil || f.Signature.Recv() == nil || !isVFSPtr(f.Signature.Recv().Type()) || !ast.IsExported(f.Name()) {
+			continue
+		}
+		res := f.Signature.Results()
+		if res.Len() == 0 || !isErrorType(res.At(res.Len()-1).Type()) {
+			continue
+		}
+		hasPath := false
+		for _, p := range f.Params[1:] {
+			if p.Type().String() == "string" {
+				hasPath = true
+			}
+		}
+		if !hasPath || f.Name() == "Close" {
+			continue
+		}
+		k := res.Len() - 1
+		// error values of calls that vouch for the filesystem being open
+		var vouchers []ssa.Value
+		allInstrs(f, func(in ssa.Instruction) {
+			cl, ok := in.(*ssa.Call)
+			if !ok {
+				return
+			}
+			if calleeFull(&cl.Call) == vfsGuard {
+				vouchers = append(vouchers, cl)
+				return
+			}
+			g := staticCallee(&cl.Call)
+			viaFS := false
+			if g != nil && g.Signature.Recv() != nil && isVFSPtr(g.Signature.Recv().Type()) {
+				viaFS = true
+			}
+			if g != nil && g.Signature.Recv() == nil && inPkg(fsPkgRel)(g) {
+				// a package-level helper that is handed this filesystem
+				for _, a := range cl.Call.Args {
+					if resolveValue(a) == ssa.Value(f.Params[0]) {
+						viaFS = true
+					}
+					if mi, ok := a.(*ssa.MakeInterface); ok && resolveValue(mi.X) == ssa.Value(f.Params[0]) {
+						viaFS = true
+					}
+				}
+			}
+			if viaFS {
+				vouchers = append(vouchers, errResultsOf(cl)...)
+			}
+		})
+		bad := ""
+		allInstrs(f, func(in ssa.Instruction) {
+			r, ok := in.(*ssa.Return)
+			if !ok || len(r.Results) <= k || isErrorExit(f, r) {
+				return
+			}
+			// the value returned is itself the (possibly converted) error of a delegated call: it is nil only if that call succeeded
+			for _, l := range sources(r.Results[k], deriveOpts{through: func(n string) bool { return strings.Contains(strings.ToLower(n), "convert") }}) {
+				for _, v := range vouchers {
+					if l == v || sameValue(l, v) {
+						return
+					}
+					if ex, isEx := v.(*ssa.Extract); isEx && l == ex.Tuple {
+						return
+					}
+				}
+			}
+			for _, v := range vouchers {
+				if onNilSide(v, r) {
+					return
+				}
+			}
+			bad = c.ipos(r)
+		})
+		c.FuncsSeen[fname(f)] = true
+		c.check(bad == "", "V12", fname(f)+"/answers-only-when-open", c.pos(f.Pos()), "every return without an error follows the closed guard or a delegated filesystem call that answered nil",
+			"the return at "+bad+" can hand back an answer without an error although nothing established that the filesystem is still open: on a view over an archive that was closed the queries that cannot fail (Exists, IsFile) simply answer false, and the method concludes from that — a closed filesystem says that `x.zip` is an archive")
+	}
+}
+
+// c07TimesReportTheErrorOfStat (V13): "once closed … every call that needs the archive fails (the direct accessors with the
+// 'failed condition' kind)" and, for C06, "the error kinds are those of the reference model". StatTimes looks at the file
+// with Stat: where that failed, the failure is what the caller gets — not whatever DetermineFileTimes makes of missing
+// information ('undefined'). Decided: every return reachable from the Stat call without crossing the nil side of a test
+// of its error returns that error (converted at most).
+func (c *Ctx) c07TimesReportTheErrorOfStat() {
+	c.rule("V13", "StatTimes returns the error of its Stat wherever that error is not nil: a missing file is 'not found', a closed view 'failed condition' — never 'undefined' for want of information", 1)
+	f := c.fnOpt(fsPkgRel, "(*VFS).StatTimes")
+	if f == nil {
+		return
+	}
+	c.FuncsSeen[fname(f)] = true
+	var stat *ssa.Call
+	allInstrs(f, func(in ssa.Instruction) {
+		if cl, ok := in.(*ssa.Call); ok {
+			if nm, _, isFs := fsMethodCall(cl); isFs && (nm == "Stat" || nm == "Lstat") {
+				stat = cl
+			}
+		}
+	})
+	if stat == nil {
+		c.violate("V13", fname(f)+"/stat-error-returned", c.pos(f.Pos()), "StatTimes no longer looks at the file with Stat")
+		return
+	}
+	es := errResultsOf(stat)
+	if len(es) == 0 {
+		return
+	}
+	e := es[0]
+	k := f.Signature.Results().Len() - 1
+	prune := func(b *ssa.BasicBlock, kk int) bool {
+		ifi, ok := b.Instrs[len(b.Instrs)-1].(*ssa.If)
+		if !ok {
+			return false
+		}
+		if x, nilSucc, isNil := nilTest(ifi); isNil && sameValue(x, e) {
+			return kk == nilSucc
+		}
+		return false
+	}
+	bad := pathPruned(f, stat, func(ssa.Instruction) bool { return false }, func(in ssa.Instruction) bool {
+		r, ok := in.(*ssa.Return)
+		if !ok || len(r.Results) <= k {
+			return false
+		}
+		for _, l := range sources(r.Results[k], deriveOpts{through: func(n string) bool { return strings.Contains(strings.ToLower(n), "convert") }}) {
+			if l == e || sameValue(l, e) {
+				return false
+			}
+		}
+		return true
+	}, prune)
+	c.check(bad == nil, "V13", fname(f)+"/stat-error-returned", c.ipos(stat), "where Stat failed, its error is what StatTimes returns",
+		"the return at "+c.iposOr(bad)+" can be reached with the error of Stat not nil and hands back something else: StatTimes of a missing file answers 'undefined: no file information defined' instead of 'not found', and on a view over an archive that was closed the 'failed condition' kind is lost")
+}
+
+// c07EmptyDirectoriesAndDirectorySizes (V14, V15).
+// V14: "the read-only zip and tar filesystems … expose exactly the same paths, kinds, sizes": an empty directory of the
+// archive is empty. The zip view returns no names and no error for it: isDirEmpty answers 'empty' where the listing gave
+// no name — a test of the number of names returned guards a return of true.
+// V15: "zipping it and unzipping the result reproduces the tree … with and without limits": the maximum file size is a
+// limit on files. In the zip walker the comparison of an entry's size with that limit lies where the entry was found not
+// to be a directory (the size a file system reports for a directory says nothing about the archive).
+func (c *Ctx) c07EmptyDirectoriesAndDirectorySizes() {
+	c.rule("V14", "isDirEmpty answers 'empty' where the listing returned no name (and no error): the number of names returned is tested and guards a return of true", 1)
+	c.rule("V15", "in the zip walker the size of an entry is compared with the maximum file size only where the entry is not a directory", 1)
+	if f := c.fnOpt(fsPkgRel, "(*VFS).isDirEmpty"); f != nil {
+		c.FuncsSeen[fname(f)] = true
+		var names ssa.Value
+		allInstrs(f, func(in ssa.Instruction) {
+			if cl, ok := in.(*ssa.Call); ok && cl.Call.IsInvoke() && (cl.Call.Method.Name() == "Readdirnames" || cl.Call.Method.Name() == "Readdir") {
+				for _, r := range *cl.Referrers() {
+					if ex, ok := r.(*ssa.Extract); ok && ex.Index == 0 {
+						names = ex
+					}
+				}
+			}
+		})
+		good := false
+		if names != nil {
+			for _, b := range f.Blocks {
+				ifi, ok := b.Instrs[len(b.Instrs)-1].(*ssa.If)
+				if !ok {
+					continue
+				}
+				onLen := false
+				for _, l := range sources(ifi.Cond, deriveOpts{through: func(string) bool { return true }}) {
+					if l == names {
+						onLen = true
+					}
+				}
+				var walk func(v ssa.Value, d int)
+				walk = func(v ssa.Value, d int) {
+					if d > 6 {
+						return
+					}
+					switch x := v.(type) {
+					case *ssa.BinOp:
+						walk(x.X, d+1)
+						walk(x.Y, d+1)
+					case *ssa.UnOp:
+						walk(x.X, d+1)
+					case *ssa.Phi:
+						for _, e := range x.Edges {
+							walk(e, d+1)
+						}
+					case *ssa.Call:
+						if bi, ok := x.Call.Value.(*ssa.Builtin); ok && bi.Name() == "len" && len(x.Call.Args) == 1 && x.Call.Args[0] == names {
+							onLen = true
+						}
+					}
+				}
+				walk(ifi.Cond, 0)
+				if !onLen {
+					continue
+				}
+				// a return of (true, …) reached only over one edge of this test
+				for k := 0; k < 2; k++ {
+					allInstrs(f, func(in ssa.Instruction) {
+						r, ok := in.(*ssa.Return)
+						if !ok || len(r.Results) == 0 || !edgeDominates(b, k, r.Block()) {
+							return
+						}
+						for _, l := range sources(r.Results[0], deriveOpts{}) {
+							if bv, isB := constBool(l); isB && bv {
+								good = true
+							}
+						}
+					})
+				}
+			}
+		}
+		c.check(good, "V14", fname(f)+"/no-name-means-empty", c.pos(f.Pos()), "a test of the number of names returned guards a return of true",
+			"isDirEmpty only takes the end-of-directory error for 'empty': the read-only view over a zip archive returns no names and no error for an empty directory, so IsEmpty answers false for every empty directory of an archive")
+	}
+	if f := c.fnOpt(fsPkgRel, "(*VFS).ZipWithContextAndLimitsAndExclusionPatterns"); f != nil {
+		n := 0
+		bad := ""
+		withAnon(f, func(g *ssa.Function) {
+			if g == f {
+				return
+			}
+			allInstrs(g, func(in ssa.Instruction) {
+				b, ok := in.(*ssa.BinOp)
+				if !ok {
+					return
+				}
+				isMax := func(v ssa.Value) bool { return isLimitsGetter(v, "GetMaxFileSize") }
+				isSize := func(v ssa.Value) bool {
+					cl, ok := stripConv(v).(*ssa.Call)
+					return ok && cl.Call.IsInvoke() && cl.Call.Method.Name() == "Size" && strings.HasSuffix(cl.Call.Value.Type().String(), ".FileInfo")
+				}
+				if !((isMax(b.X) && isSize(b.Y)) || (isMax(b.Y) && isSize(b.X))) {
+					return
+				}
+				n++
+				notDir := onBoolSide(b, false, func(v ssa.Value) bool {
+					cl, ok := v.(*ssa.Call)
+					return ok && cl.Call.IsInvoke() && cl.Call.Method.Name() == "IsDir"
+				})
+				if !notDir {
+					bad = c.ipos(b)
+				}
+			})
+		})
+		if n == 0 {
+			c.info("V15", fname(f)+"/no-per-entry-size-test", "-", "the zip walker does not compare entry sizes with the maximum file size")
+			c.ok("V15", fname(f)+"/directories-not-measured", c.pos(f.Pos()), "no entry size is compared with the limit in the walker")
+		} else {
+			c.check(bad == "", "V15", fname(f)+"/directories-not-measured", c.pos(f.Pos()), "the size comparison lies on the 'not a directory' side",
+				"the size of every entry, directories included, is compared with the maximum file size ("+bad+"): the 4096 bytes a file system reports for a directory make a tree whose only file is five bytes long 'too large' under a limit of 1024 bytes per file")
+		}
 	}
 }
